@@ -73,6 +73,12 @@ def cases(tier, rng):
         yield Case(f"!prt.prefixes {hx}", expect=f"{len(b)} 0 -", tag="prefixes")
         for k, pix in PIX.items():
             yield Case(f"!prt.use {hx} {pix.hex() if pix else '-'} 2", check=use_check, tag="use-valid-" + k)
+        # extraction "by any index": indices that are in range only after truncation to 32 (or 16, 8) bits must be refused too
+        n = len(a.images)
+        for idx in sorted({n, n + 1, 255, 256, 65535, 65536, (1 << 32) - 1, 1 << 32, (1 << 63), (1 << 64) - 1}
+                          | {(1 << 32) + i for i in range(n)} | {(1 << 16) + i for i in range(n)} | {(1 << 48) + i for i in range(n)}):
+            if idx >= n:
+                yield Case(f"!prt.extract {hx} {idx} {PIX['mid'].hex()}", expect="e", tag="extract-huge-index")
         fields = []
         R.encode(a, fields=fields)
         picks = []
